@@ -2,6 +2,10 @@ import ElfiVerif.Model.Smc
 import Mathlib.Data.List.Basic
 import Mathlib.Algebra.BigOperators.Group.List.Basic
 import Mathlib.Tactic.Linarith
+import Mathlib.Algebra.Order.Field.Basic
+import Mathlib.Tactic.FieldSimp
+import Mathlib.Tactic.Ring
+import Mathlib.Tactic.Positivity
 
 /-! Proofs for C07 (statements are repeated in Props/C07.lean). -/
 namespace ElfiVerif.Smc
@@ -139,5 +143,98 @@ theorem nsim_total' (calls : List (Bool × List (Nat × Nat))) (h : CallsOK call
     (history calls).nBatches = (((calls.map (·.2)).flatten).map (·.2)).sum := by
   have _ := h  -- `CallsOK` is not needed
   exact (Inv.history calls).nsim
+
+/-! ### importance weights -/
+section weights
+variable {F Θ : Type} [Field F] [LinearOrder F] [IsStrictOrderedRing F]
+
+theorem sumF_cons (a : F) (l : List F) : sumF (a :: l) = a + sumF l := rfl
+
+theorem sumF_nil : sumF ([] : List F) = 0 := rfl
+
+theorem sumF_map_mul (c : F) (l : List F) : sumF (l.map (c * ·)) = c * sumF l := by
+  induction l with
+  | nil => simp [sumF_nil]
+  | cons a l ih => simp only [List.map_cons, sumF_cons, ih]; ring
+
+theorem mix_const (S : F) : ∀ (w : List F) (means : List Θ), w.length = means.length →
+    sumF (List.zipWith (fun wj (_ : Θ) => wj / S * (1 : F)) w means) = sumF w / S := by
+  intro w
+  induction w with
+  | nil => intro means _; simp [sumF_nil]
+  | cons a w ih =>
+    intro means h
+    cases means with
+    | nil => simp at h
+    | cons m ms =>
+      have h' : w.length = ms.length := by simpa using h
+      simp only [List.zipWith_cons_cons, sumF_cons, ih ms h']
+      ring
+
+theorem gm_density_normalised' (means : List Θ) (w : List F) (x : Θ) (hlen : w.length = means.length)
+    (hsum : sumF w ≠ 0) : gmDensity (fun _ _ => (1 : F)) means w x = 1 := by
+  unfold gmDensity
+  rw [mix_const (sumF w) w means hlen]
+  exact div_self hsum
+
+theorem mix_scale (k : Θ → F) (S c : F) (hc : c ≠ 0) : ∀ (w : List F) (means : List Θ),
+    sumF (List.zipWith (fun wj m => wj / (c * S) * k m) (w.map (c * ·)) means) =
+    sumF (List.zipWith (fun wj m => wj / S * k m) w means) := by
+  intro w
+  induction w with
+  | nil => intro means; simp
+  | cons a w ih =>
+    intro means
+    cases means with
+    | nil => simp
+    | cons m ms =>
+      simp only [List.map_cons, List.zipWith_cons_cons, sumF_cons, ih ms]
+      rw [mul_div_mul_left a S hc]
+
+theorem smc_weight_scale_invariant' (prior : Θ → F) (kernel : Θ → Θ → F) (means : List Θ) (w : List F)
+    (x : Θ) (c : F) (hc : c ≠ 0) :
+    smcWeight prior kernel means (w.map (c * ·)) x = smcWeight prior kernel means w x := by
+  unfold smcWeight gmDensity
+  rw [sumF_map_mul, mix_scale (kernel x) (sumF w) c hc w means]
+
+theorem mix_pos (k : Θ → F) (S : F) (hS : 0 < S) : ∀ (w : List F) (means : List Θ),
+    w.length = means.length → (∀ v ∈ w, 0 ≤ v) → (∀ m ∈ means, 0 < k m) →
+    0 ≤ sumF (List.zipWith (fun wj m => wj / S * k m) w means) ∧
+    (0 < sumF w → 0 < sumF (List.zipWith (fun wj m => wj / S * k m) w means)) := by
+  intro w
+  induction w with
+  | nil => intro means _ _ _; simp [sumF_nil]
+  | cons a w ih =>
+    intro means h hw hk
+    cases means with
+    | nil => simp at h
+    | cons m ms =>
+      have h' : w.length = ms.length := by simpa using h
+      have ha : 0 ≤ a := hw a (by simp)
+      have hkm : 0 < k m := hk m (by simp)
+      obtain ⟨h0, hpos⟩ := ih ms h' (fun v hv => hw v (by simp [hv])) (fun q hq => hk q (by simp [hq]))
+      simp only [List.zipWith_cons_cons, sumF_cons]
+      have hterm : 0 ≤ a / S * k m := mul_nonneg (div_nonneg ha hS.le) hkm.le
+      refine ⟨add_nonneg hterm h0, fun hsum => ?_⟩
+      rcases lt_or_eq_of_le ha with hlt | heq
+      · have : 0 < a / S * k m := mul_pos (div_pos hlt hS) hkm
+        linarith
+      · have : 0 < sumF w := by rw [← heq] at hsum; simpa using hsum
+        have := hpos this
+        linarith
+
+theorem smc_weight_pos' (prior : Θ → F) (kernel : Θ → Θ → F) (means : List Θ) (w : List F) (x : Θ)
+    (hlen : w.length = means.length) (hw : ∀ v ∈ w, 0 ≤ v) (hsum : 0 < sumF w)
+    (hk : ∀ m ∈ means, 0 < kernel x m) (hp : 0 < prior x) :
+    0 < smcWeight prior kernel means w x := by
+  unfold smcWeight gmDensity
+  exact div_pos hp ((mix_pos (kernel x) (sumF w) hsum w means hlen hw hk).2 hsum)
+
+theorem smc_weight_zero_outside' (prior : Θ → F) (kernel : Θ → Θ → F) (means : List Θ) (w : List F)
+    (x : Θ) (hp : prior x = 0) : smcWeight prior kernel means w x = 0 := by
+  unfold smcWeight
+  rw [hp, zero_div]
+
+end weights
 
 end ElfiVerif.Smc
